@@ -46,13 +46,17 @@ def tlc_inputs(ctx):
         return r
 
     def gen(_):
-        g = L.tlc_cached(ctx, "Layout", "MC_Abi_gen.cfg", workers=4, simulate=ntr, depth=50, timeout=2400)
-        if not g.ok:
-            raise vlib.MachineryError("aggregate generator failed: %s" % g.out[-2000:])
-        return g
+        # mostly aggregates cproc claims to describe (no _Alignas members, not packed); a fifth from the full generator
+        out = []
+        for cfg, n in (("MC_Abi_gen.cfg", ntr), ("MC_Abi_gen_full.cfg", max(5, ntr // 5))):
+            g = L.tlc_cached(ctx, "Layout", cfg, workers=4, simulate=n, depth=50, timeout=2400)
+            if not g.ok:
+                raise vlib.MachineryError("aggregate generator failed: %s" % g.out[-2000:])
+            out += g.vcases
+        return out
     d, g = vlib.pmap(lambda f: f(None), [design, gen], workers=2)
     ctx.cov["design"] = {"cfg": "MC_Abi_mc_%s.cfg" % tier, "distinct": d.distinct, "generated": d.states, "wall_s": round(d.wall, 1)}
-    terms = [json.loads(v) for v in dict.fromkeys(g.vcases)]
+    terms = [json.loads(v) for v in dict.fromkeys(g)]
     # cproc cannot describe long double at all (qbetype() is fatal) and flexible structs are not passed by value here
     pool = [t for t in terms if not contains(t, lambda x: x["k"] == "sc" and x["n"] == "ldouble")
             and not contains(t, lambda x: x["k"] == "arr" and x["n"] == 0)]
@@ -260,6 +264,9 @@ def judge_descriptors(ctx, pool, descrs, valist_t):
             hist["field-for-field"] += 1
         if not v["asmodel"]:
             hist["differs-from-emittype-model"] += 1
+            if v["i"]:
+                ctx.cov.setdefault("model_differences", []).append({"target": v["tg"], "type": L.Rendered(pool[v["i"] - 1], "A", "m").text,
+                                                                    "descriptor": descrs[(v["i"], v["tg"])]})
         if v["equiv"]:
             continue
         why = "size" if v["csize"] != v["qsize"] else "align" if v["calign"] != v["qalign"] else "class"
